@@ -264,6 +264,45 @@ def rule_r8_result_combinators(body, log, where):
         recv = body[rstart:s_].strip()
         n8a += 1
         body = body[:rstart] + 'match %s { Ok(_) => %s, Err(__e) => Err(__e) }' % (recv, b) + body[pclose + 1:]
+    n8c = 0
+    while True:
+        kind = rs.code_mask(body)
+        hit = None
+        for s_, e_, m in rs.find_code(body, kind, r'\.\s*and_then\s*\(\s*\|\s*(\w+)\s*\|', 0, len(body)):
+            if m.group(1) in ('_', '_e'):
+                continue
+            hit = (s_, e_, m); break
+        if hit is None:
+            break
+        s_, e_, m = hit
+        popen = body.index('(', s_)
+        pclose = rs.match_close(body, kind, popen)
+        b = body[e_:pclose].strip()
+        rstart = _receiver_start(body, kind, s_)
+        recv = body[rstart:s_].strip()
+        n8c += 1
+        body = body[:rstart] + 'match %s { Some(%s) => %s, None => None }' % (recv, m.group(1), b) + body[pclose + 1:]
+    n8d = 0
+    while True:
+        kind = rs.code_mask(body)
+        hit = None
+        for s_, e_, m in rs.find_code(body, kind, r'\.\s*map_or\s*\(', 0, len(body)):
+            hit = (s_, e_, m); break
+        if hit is None:
+            break
+        s_, e_, m = hit
+        popen = e_ - 1
+        pclose = rs.match_close(body, kind, popen)
+        inner = body[popen + 1:pclose]
+        mm = re.match(r'\s*(.+?)\s*,\s*\|(.+?)\|\s*(.+)$', inner, re.S)
+        if not mm:
+            raise Undecided('rule R8d: unsupported map_or shape in %s' % where)
+        rstart = _receiver_start(body, kind, s_)
+        recv = body[rstart:s_].strip()
+        n8d += 1
+        body = body[:rstart] + 'match %s { Some(%s) => %s, None => %s }' % (recv, mm.group(2).strip(), mm.group(3).strip(), mm.group(1).strip()) + body[pclose + 1:]
+    log.hit('R8c.option_and_then', n8c, where)
+    log.hit('R8d.option_map_or', n8d, where)
     log.hit('R8a.and_then', n8a, where)
     log.hit('R8b.zip_try_for_each', n8b, where)
     return body
